@@ -18,7 +18,7 @@
         }
 //@after /let raw = self\.metadata\.to_bytes\(\)\?;/
         let ghost raw0 = raw@;
-//@after /\.replace\("\\\\n", "\\n"\);/
+//@after /\.replace\("\\\\n", "\\n"\);/ optional
         proof { fact_replace_str_pattern(vstd::utf8::decode_utf8(raw0), "\\n", "\n"@); }
         assert(signed_msg(self.metadata) == Some(vstd::utf8::encode_utf8(metadata@)));
 //@before /check the signatures, if is signed by an authorized key/
